@@ -1,5 +1,6 @@
 (* C16 (e): the categories of uninterpretable proxy headers give a 400
-   (MalformedProxyHeader), and the one that does not (empty host, F20). *)
+   (MalformedProxyHeader), including the empty host (repaired by 11c18eb,
+   formerly finding F20) and the empty client address (12a41a9, formerly F19). *)
 From Coq Require Import String.
 From Coq Require Import List NArith ZArith Bool Lia.
 From WV Require Import Lib.PyBytes Lib.PyStrProxy Lib.Regex Lib.RegexDec Gen.GenRegex Spec.Grammar Model.Proxy
@@ -272,30 +273,61 @@ Proof.
       rewrite (forwarded_blocks raw ps Hmm) in Hc. discriminate.
 Qed.
 
+(* categories decided on the selected values *)
+Definition malformed_selection (s : pst) : Prop :=
+  cat_scheme (fproto s) = true \/ empty_host (fhost s) = true \/
+  (exists cl, client s = Some cl /\ bad_client cl = true).
+
+Lemma apply_malformed s : has_key k_url_scheme (env s) -> malformed_selection s ->
+  exists h, parse_apply s = Malformed h.
+Proof.
+  intros Hk Hm. unfold parse_apply.
+  destruct (stage_proto s) as [s1| |] eqn:E1; cbn [bind]; eauto.
+  2:{ exfalso. eapply stage_proto_no_exn; eauto. }
+  pose proof (stage_proto_has_key _ _ _ E1 Hk) as Hk1.
+  pose proof (stage_proto_ok _ _ E1) as (P1c & P1h & _ & _ & P1).
+  destruct (stage_host s1) as [s2| |] eqn:E2; cbn [bind]; eauto.
+  2:{ exfalso. eapply stage_host_no_exn; eauto. }
+  pose proof (stage_host_ok _ _ E2) as (P2c & _ & _ & _ & _ & _ & _ & P2e).
+  destruct Hm as [Hm|[Hm|(cl & Hc & Hb)]].
+  - destruct P1 as [[_ Hp]|(_ & Hp & _)]; [rewrite Hp in Hm; discriminate|congruence].
+  - rewrite P1h in P2e. congruence.
+  - rewrite stage_client_spec. destruct (stage_port_facts s2) as (P3c & _). rewrite P3c, P2c, P1c, Hc.
+    destruct cl as [|c0 c']; [discriminate|]. cbv zeta. rewrite Hb. eauto.
+Qed.
+
 Lemma trusted_malformed c e :
   on_trusted_path c e = true ->
   (malformed_syntax (tph_of c) e \/
-   exists s, parse_select e (trusted_proxy_count c) (tph_of c) = Ok s /\ cat_scheme (fproto s) = true) ->
+   has_key k_url_scheme e /\
+   exists s, parse_select e (trusted_proxy_count c) (tph_of c) = Ok s /\ malformed_selection s) ->
   exists h, middleware c e = Malformed h.
 Proof.
   intros Hp Hm. unfold middleware, on_trusted_path in *.
   destruct (lookup k_remote_addr e) as [peer|]; [|discriminate]. rewrite Hp.
   unfold parse_proxy_headers. fold (tph_of c).
   destruct (parse_select e (trusted_proxy_count c) (tph_of c)) as [s| |] eqn:Es; cbn [bind].
-  - destruct Hm as [Hm|(s' & Hs' & Hc)].
+  - destruct Hm as [Hm|(Hk & s' & Hs' & Hc)].
     + exfalso. eapply select_ok_wellformed; eauto.
-    + injection Hs' as <-. unfold parse_apply.
-      destruct (stage_proto_scheme s Hc) as [h ->]. cbn. eauto.
+    + injection Hs' as <-.
+      destruct (apply_malformed s (select_keys _ _ _ _ _ Es Hk) Hc) as [h ->]. cbn. eauto.
   - eauto.
   - exfalso. eapply select_no_exn; eauto.
 Qed.
 
-(* ---- F20: the empty host is not one of them ------------------------------------------------------------- *)
-Definition C16_empty_host_statement : Prop :=
-  forall c e s, on_trusted_path c e = true ->
-    parse_select e (trusted_proxy_count c) (tph_of c) = Ok s -> empty_host (fhost s) = true ->
-    exists h, middleware c e = Malformed h.
+(* and a request that is accepted has none of them *)
+Lemma accepted_wellformed c e o :
+  on_trusted_path c e = true -> has_key k_url_scheme e -> middleware c e = Ok o ->
+  ~ malformed_syntax (tph_of c) e /\
+  forall s, parse_select e (trusted_proxy_count c) (tph_of c) = Ok s -> ~ malformed_selection s.
+Proof.
+  intros Hp Hk Ho. split.
+  - intro Hm. destruct (trusted_malformed c e Hp (or_introl Hm)) as [h Hh]. congruence.
+  - intros s Hs Hm. destruct (trusted_malformed c e Hp (or_intror (conj Hk (ex_intro _ s (conj Hs Hm))))) as [h Hh].
+    congruence.
+Qed.
 
+(* the former finding F20 *)
 Definition f20_cfg : config :=
   {| trusted_proxy := Some (s2l "10.0.0.1"%string); trusted_proxy_count := 1%Z;
      trusted_proxy_headers := Some [n_xfh]; clear_untrusted := true |}.
@@ -303,19 +335,5 @@ Definition f20_env : environ :=
   [(k_remote_addr, s2l "10.0.0.1"%string); (k_url_scheme, s_http); (k_server_name, s2l "real.example"%string);
    (k_xfh, s2l ":80"%string)].
 
-Lemma empty_host_refuted : ~ C16_empty_host_statement.
-Proof.
-  intro H.
-  destruct (H f20_cfg f20_env
-              {| env := [(k_remote_addr, s2l "10.0.0.1"%string); (k_url_scheme, s_http);
-                         (k_server_name, s2l "real.example"%string); (k_xfh, s2l ":80"%string)];
-                 client := None; fhost := s2l ":80"%string; fproto := []; fport := []; fwd := Some [];
-                 unt := {| u_for := true; u_host := false; u_proto := true; u_port := true; u_by := true; u_fwd := true |} |})
-    as [h Hh]; try (vm_compute; reflexivity).
-  vm_compute in Hh. discriminate.
-Qed.
-
-Lemma empty_host_witness :
-  exists o, middleware f20_cfg f20_env = Ok o /\ lookup k_server_name o = Some [] /\
-            lookup k_http_host o = Some (s2l ":80"%string).
-Proof. eexists. split; [vm_compute; reflexivity|split; vm_compute; reflexivity]. Qed.
+Example empty_host_is_400 : middleware f20_cfg f20_env = Malformed h_xfh.
+Proof. vm_compute. reflexivity. Qed.
